@@ -47,9 +47,13 @@ func EncodeTypedPointer(buf *[]byte, vt *rt.GoType, vp *unsafe.Pointer, sb *vars
 		return prim.EncodeNil(buf)
 	} else if fn, err := vars.FindOrCompile(vt, (fv&(1<<alg.BitPointerValue)) != 0, compiler); err != nil {
 		return err
-	} else if vt.Indirect() {
-		return fn.(vars.Encoder)(buf, *vp, sb, fv)
 	} else {
-		return fn.(vars.Encoder)(buf, unsafe.Pointer(vp), sb, fv)
+		/* the bit told how to compile this type, it says nothing about the values below it */
+		fv &^= 1 << alg.BitPointerValue
+		if vt.Indirect() {
+			return fn.(vars.Encoder)(buf, *vp, sb, fv)
+		} else {
+			return fn.(vars.Encoder)(buf, unsafe.Pointer(vp), sb, fv)
+		}
 	}
 }
